@@ -28,7 +28,8 @@
   * `self.A.extend(e)` (statement) -> `pySetAttr self A (pyListExtendC13 self.A e)`: `list.extend` on the list held in the
     field.  The list may be one the caller passed in (`HTMLTextDocument(html, deps=[…])` extends the caller's list): as for
     every self-mutating method translated so far the effect on the caller's own object is not part of the translation.
-  * `s.replace(a, b, 1)` -> `pyReplaceFirstC13` (first occurrence only; `count` must be the literal `1`).
+  * `s.replace(a, b, 1)` -> `pyReplaceFirstC13` (first occurrence only; `count` must be the literal `1`);
+    `s.replace(a, b)` -> `pyReplaceAll` (Py/PrimC08.lean: a key of any length, leftmost non-overlapping).
   * `deepcopy(x)` (from `copy`) -> `x`: a `PVal` has no identity, a deep copy is the same value.
   * `str(x)` -> `pyStrC13` (`pyStr`, and the text of a `packaging` Version object).
   * **fresh TagList locals** (`render`): a local bound exactly once, at the top level of the body, to `TagList()`, whose other
@@ -406,6 +407,10 @@ def _expr_hook(fn, e):
             if info is None or not info.available:
                 raise T.Untranslatable("TagList.render is not translated")
             return fn.call_known(info, [], [], recv=fn.name(f.value.id))
+        # s.replace(a, b): a key of any length (Py/PrimC08.lean `pyReplaceAll`; the base translator's `pyReplace` is for a
+        # one-character key)
+        if isinstance(f, ast.Attribute) and f.attr == "replace" and _plain_args(e, 2):
+            return f"(← pyReplaceAll {fn.V(f.value)} {fn.V(e.args[0])} {fn.V(e.args[1])})"
         # s.replace(a, b, 1)
         if isinstance(f, ast.Attribute) and f.attr == "replace" and _plain_args(e, 3):
             c = e.args[2]
